@@ -103,7 +103,7 @@ func genCase(t *rapid.T, maxRecs, diskOdds int) Case {
 	c.NA = rapid.SampledFrom(naValues).Draw(t, "na")
 	c.Pool = genPool(t, rapid.IntRange(1, 6).Draw(t, "nseq"))
 
-	nkeys := rapid.IntRange(0, 4).Draw(t, "nkeys")
+	nkeys := rapid.SampledFrom([]int{2, 1, 3, 0, 4, 2, 3}).Draw(t, "nkeys")
 	c.Keys = append(c.Keys, rapid.Permutation(keyNames).Draw(t, "keys")[:nkeys]...)
 	// every key is a category attribute, a merge attribute, both, or a plain annotation
 	for k := range c.Keys {
@@ -130,7 +130,7 @@ func genCase(t *rapid.T, maxRecs, diskOdds int) Case {
 	absentOdds := rapid.SampledFrom([]int{2, 4, 4, 1000}).Draw(t, "absent_odds")
 
 	n := rapid.IntRange(1, maxRecs).Draw(t, "nrecs")
-	if rapid.IntRange(0, 40).Draw(t, "empty_input") == 0 {
+	if rapid.IntRange(0, 99).Draw(t, "empty_input") == 57 {
 		n = 0
 	}
 	for i := 0; i < n; i++ {
@@ -178,11 +178,9 @@ func genCase(t *rapid.T, maxRecs, diskOdds int) Case {
 				if parts == 1 && rapid.Bool().Draw(t, "keep_plain") {
 					for _, v := range pools[k] {
 						if v.render() == m.V[0] {
-							if rapid.Bool().Draw(t, "plain_typed") {
-								r.Attr[k] = v
-							} else {
-								r.Attr[k] = Val{K: "s", S: m.V[0]}
-							}
+							// same Go type as on the other records (an int 0 next to a
+							// string "0" is left out, see Domain decisions)
+							r.Attr[k] = v
 						}
 					}
 				}
@@ -192,13 +190,28 @@ func genCase(t *rapid.T, maxRecs, diskOdds int) Case {
 	}
 	c.NoSingleton = rapid.IntRange(0, 2).Draw(t, "nosingleton") == 0
 
+	// round trip key: a merge attribute if there is one.  When the key is also a
+	// category attribute it must not be already merged in some record (demerge
+	// rewrites k from the map, which would move such a record to another key).
 	c.RT = -1
-	if len(c.Keys) > 0 && rapid.Bool().Draw(t, "roundtrip") {
-		if len(c.Mrg) > 0 {
-			c.RT = rapid.SampledFrom(c.Mrg).Draw(t, "rt_key")
-		} else {
-			c.RT = rapid.IntRange(0, len(c.Keys)-1).Draw(t, "rt_key_any")
+	var rtCandidates []int
+	for k := range c.Keys {
+		ok := len(c.Mrg) == 0 || isMrg[k]
+		for _, ck := range c.Cat {
+			if ck == k {
+				for _, r := range c.Recs {
+					if r.Pre[k] != nil {
+						ok = false
+					}
+				}
+			}
 		}
+		if ok {
+			rtCandidates = append(rtCandidates, k)
+		}
+	}
+	if len(rtCandidates) > 0 && rapid.Bool().Draw(t, "roundtrip") {
+		c.RT = rapid.SampledFrom(rtCandidates).Draw(t, "rt_key")
 	}
 	nruns := rapid.IntRange(1, 3).Draw(t, "nruns")
 	if c.RT >= 0 {
@@ -229,7 +242,7 @@ func classesOf(c Case, s stats) []string {
 		fmt.Sprintf("ncat:%d", len(c.Cat)),
 		fmt.Sprintf("nmerge:%d", len(c.Mrg)),
 		"max_class_members:" + bucket(s.maxMembers),
-		fmt.Sprintf("nseq:%d", len(c.Pool)),
+		"nseq:" + bucket(len(c.Pool)),
 	}
 	for _, k := range c.Cat {
 		for _, m := range c.Mrg {
